@@ -262,6 +262,9 @@ fn parent(entry: &Entry, tier: Tier, seed: u64) -> i32 {
         enumerated += r.enumerated;
         nontrivial += r.nontrivial;
         hashes.extend(r.distinct_nontrivial_hashes.iter().copied());
+        if r.hashes_capped && !notes.iter().any(|n| n.starts_with("distinct_nontrivial is a lower bound")) {
+            notes.push("distinct_nontrivial is a lower bound: distinct cases are told apart for the first 2^21 non-trivial cases of every worker only".into());
+        }
         for (k, v) in &r.labels {
             *labels.entry(k.clone()).or_default() += v;
         }
